@@ -714,6 +714,7 @@ pub const STRUCT_OPS: &[&str] = &[
     "long-field",
     "wide-tlf",
     "tag-high-bits",
+    "hollow-list",
 ];
 
 /// apply one structural mutation; returns its name (None if nothing could be done)
@@ -801,6 +802,38 @@ pub fn mutate_body(rng: &mut Rng, body: &mut Vec<u8>, op: &str) -> Option<String
             let at = rng.below(body.len());
             body[at] = *rng.pick(&[0x00u8, 0x01, 0x62, 0x63, 0x65, 0x72, 0x76, 0x77, 0x80, 0xff]);
             Some(format!("byte-set(off={})", at))
+        }
+        "hollow-list" => {
+            // a list that declares a count just below a power of two (or any other inflated
+            // value) and contains *nothing*: either only its elements are removed, or the
+            // message ends right behind the list's TLF.  A countdown that is kept in a narrower
+            // type, or that has a constant added to it, wraps onto "nothing more to read".
+            let c: Vec<&Site> = sites.iter().filter(|s| s.ty == TY_LIST && s.depth >= 1).collect();
+            if c.is_empty() {
+                return None;
+            }
+            // biased towards the lists that span most of the message (body, response, value list)
+            let w: Vec<usize> = c.iter().map(|s| 1 + (s.end - s.off)).collect();
+            let s = c[rng.weighted(&w)].clone();
+            let v: u128 = if rng.chance(3, 4) {
+                let width = *rng.pick(&[8u32, 16, 32, 32, 32, 64]);
+                (1u128 << width) - rng.range(1, 3) as u128
+            } else {
+                *rng.pick(&INFLATE_VALUES)
+            };
+            let mut nib = 1;
+            while nib < 32 && (v >> (4 * nib)) != 0 {
+                nib += 1;
+            }
+            let t = tlf_raw(TY_LIST, v, nib);
+            let cut = rng.chance(1, 2);
+            if cut {
+                body.truncate(s.off);
+                body.extend_from_slice(&t);
+            } else {
+                body.splice(s.off..s.end, t);
+            }
+            Some(format!("hollow-list(off={},v={:#x},{})", s.off, v, if cut { "message ends behind the count" } else { "elements removed" }))
         }
         "truncate-body" => {
             let at = rng.below(body.len());
@@ -912,7 +945,7 @@ pub fn mutate_body(rng: &mut Rng, body: &mut Vec<u8>, op: &str) -> Option<String
 #[derive(Clone, Debug)]
 pub struct Emphasis {
     /// weights over STRUCT_OPS
-    pub ops: [usize; 17],
+    pub ops: [usize; 18],
     /// per cent of runs that stay valid (no mutation at all)
     pub valid: usize,
     /// per cent of mutated runs that also get un-resealed byte faults
@@ -923,7 +956,7 @@ pub struct Emphasis {
 impl Emphasis {
     pub fn balanced() -> Emphasis {
         Emphasis {
-            ops: [6, 4, 4, 4, 3, 3, 3, 6, 4, 4, 3, 3, 4, 5, 2, 1, 3],
+            ops: [6, 4, 4, 4, 3, 3, 3, 6, 4, 4, 3, 3, 4, 5, 2, 1, 3, 3],
             valid: 15,
             post: 35,
             max_entries: 40,
@@ -931,7 +964,7 @@ impl Emphasis {
     }
     pub fn inflation() -> Emphasis {
         Emphasis {
-            ops: [30, 1, 1, 1, 1, 1, 1, 2, 1, 1, 1, 10, 2, 2, 8, 6, 1],
+            ops: [30, 1, 1, 1, 1, 1, 1, 2, 1, 1, 1, 10, 2, 2, 8, 6, 1, 10],
             valid: 5,
             post: 10,
             max_entries: 20,
@@ -939,7 +972,7 @@ impl Emphasis {
     }
     pub fn mid_message() -> Emphasis {
         Emphasis {
-            ops: [6, 4, 3, 4, 3, 3, 3, 8, 4, 6, 3, 3, 3, 4, 1, 1, 2],
+            ops: [6, 4, 3, 4, 3, 3, 3, 8, 4, 6, 3, 3, 3, 4, 1, 1, 2, 3],
             valid: 10,
             post: 50,
             max_entries: 12,
@@ -977,6 +1010,11 @@ pub fn gen_file_scn(rng: &mut Rng, _tier: Tier, prop: &str, em: &Emphasis) -> Fi
             let mut b = msgs[mi].body.0.clone();
             if let Some(n) = mutate_body(rng, &mut b, op) {
                 msgs[mi].body = Hx(b);
+                if op == "hollow-list" && rng.chance(1, 3) {
+                    // ... and the checksum and end marker are missing as well
+                    msgs[mi].seal = Seal::None;
+                    notes.push(format!("msg{}:seal=None", mi));
+                }
                 notes.push(format!("msg{}:{}", mi, n));
             }
         }
@@ -1020,6 +1058,31 @@ pub fn gen_file_scn(rng: &mut Rng, _tier: Tier, prop: &str, em: &Emphasis) -> Fi
                 6 => ByteOp::Insert { at, bytes: Hx(rng.bytes_range(1, 4)) },
                 _ => ByteOp::Truncate { at: total.saturating_sub(rng.range(1, 4)) },
             });
+        }
+        if rng.chance(1, 12) {
+            // a long run of one byte value (or of a short pattern) at a message boundary or anywhere:
+            // whatever the parsers do per byte, they do it thousands of times
+            let pattern: Vec<u8> = match rng.below(8) {
+                0 | 1 => vec![0x00],
+                2 => vec![0x01],
+                3 => vec![0x1b],
+                4 => vec![*rng.pick(&[0x71u8, 0x72, 0x76, 0x77, 0x7f, 0xf1])],
+                5 => vec![0x00, 0x00, 0x63, 0x00],
+                6 => rng.bytes_range(1, 3),
+                _ => vec![0x76, 0x01, 0x62, 0x00, 0x62, 0x00, 0x72, 0x63, 0x02, 0x01, 0x71, 0x01, 0x63, 0x00, 0x00, 0x00],
+            };
+            let count = *rng.pick(&[40usize, 300, 1200, 6000, 6000, 20_000, 70_000]) / pattern.len().max(1) + 1;
+            let at = match rng.below(4) {
+                0 => None,
+                1 => Some(0),
+                2 => {
+                    // a message boundary
+                    let k = rng.below(msgs.len() + 1);
+                    Some(msgs.iter().take(k).map(|m| crate::scn::seal_msg(m).len()).sum())
+                }
+                _ => Some(rng.below(total.max(1))),
+            };
+            post.push(ByteOp::Run { at, pattern: Hx(pattern), count });
         }
         if sub == "valid" {
             sub = "byte-faults";
